@@ -228,11 +228,35 @@ func (p *pg) block(ind int, vars, ro, bools []string, depth, n int, inLoop bool)
 			p.feat["closure"] = true
 			f := p.fresh("fn")
 			v := p.pickVar(vars)
-			if p.r.Intn(2) == 0 {
+			if k := p.r.Intn(4); k == 0 {
 				p.emit(ind, "%s := func(d int) int {", f)
 				p.emit(ind+1, "return %s + d", v)
 				p.emit(ind, "}")
 				p.emit(ind, "%s = %s(%s)", p.pickVar(vars), f, p.atom(all()))
+			} else if k == 1 && !p.noLoops {
+				// a loop and twin arms inside a function literal: its closures are generated while compiling,
+				// before a debug session exists
+				p.feat["closure-loop"] = true
+				p.emit(ind, "%s := func(d int) int {", f)
+				p.emit(ind+1, "s := 0")
+				if p.r.Intn(2) == 0 {
+					p.emit(ind+1, "for i := 0; i < d%%3+1; i++ {")
+					p.emit(ind+2, "s += i")
+					p.emit(ind+1, "}")
+				} else {
+					p.emit(ind+1, "for s < d%%4 {")
+					p.emit(ind+2, "s++")
+					p.emit(ind+1, "}")
+				}
+				p.emit(ind+1, "if s > 1 {")
+				p.emit(ind+2, "s = 7")
+				p.emit(ind+1, "} else {")
+				p.emit(ind+2, "s = 8")
+				p.emit(ind+1, "}")
+				p.emit(ind+1, "return %s + s", v)
+				p.emit(ind, "}")
+				p.emit(ind, "%s = %s(%s)", p.pickVar(vars), f, p.atom(all()))
+				p.emit(ind, "%s = %s(%d)", p.pickVar(vars), f, 2+p.r.Intn(3))
 			} else {
 				p.emit(ind, "%s := func() {", f)
 				p.emit(ind+1, "%s = %s + 2", v, v)
